@@ -533,7 +533,16 @@ func (g *Gen) fieldStep(env *Env, cur Val, i int) Val {
 			return Val{T: types.NewPointer(f.Type()), S: g.subRef(st, i, cur.S)}
 		}
 		h := g.fieldHeap(st, i)
-		return Val{T: f.Type(), S: fmt.Sprintf("(select %s %s)", g.heapGet(env.st, h), cur.S)}
+		term := fmt.Sprintf("(select %s %s)", g.heapGet(env.st, h), cur.S)
+		if g.inQuant == 0 && g.mode == ModeInt && isIntType(f.Type()) && g.cur != nil {
+			// a well-typed heap holds only values of the field's type
+			key := "fldrange:" + term
+			if !g.declared[key] {
+				g.declared[key] = true
+				g.asm = append(g.asm, g.inRange(f.Type(), term))
+			}
+		}
+		return Val{T: f.Type(), S: term}
 	}
 	if st, ok := cur.T.Underlying().(*types.Struct); ok {
 		f := st.Field(i)
